@@ -52,13 +52,20 @@ func slotOf(crossChainID []byte) ecommon.Hash {
 
 type slotVal struct {
 	slot ecommon.Hash
-	val  []byte // 32-byte word; stored RLP(trim-left-zeroes)
+	val  []byte // 32-byte word; stored RLP(trim-left-zeroes) as the EVM does
 }
+
+// rawSlots: slots stored as RLP of the full zero-padded 32-byte word (a non-canonical encoding no EVM produces).
+var rawSlots = map[ecommon.Hash]bool{}
 
 func buildStorage(slots []slotVal) *trie.Trie {
 	t := newTrie()
 	for _, s := range slots {
-		v, _ := rlp.EncodeToBytes(ecommon.TrimLeftZeroes(s.val))
+		b := ecommon.TrimLeftZeroes(s.val)
+		if rawSlots[s.slot] {
+			b = s.val
+		}
+		v, _ := rlp.EncodeToBytes(b)
 		t.Update(crypto.Keccak256(s.slot[:]), v)
 	}
 	return t
